@@ -125,8 +125,17 @@ func TestE3Leader(t *testing.T) {
 			if rng.Chance(8) {
 				role = []string{"F", "C", "P"}[rng.Intn(3)]
 			}
+			// the apply loop may lag behind the commit index (a restarted node, a slow state machine): in a quarter
+			// of the states the applied index is anywhere below it and the loop sleeps until the next signal
+			la := ci
+			if rng.Chance(25) {
+				la = uint64(rng.Intn(int(ci) + 1))
+			}
 			pre := NodeSt{ID: 1, Role: role, Term: 3, Vote: 1, Leader: 1, Log: lg, Cfg: cfg, Com: cfg, SV: rng.Bool(), ET: 300, LD: 100,
-				LC: now, LE: now + []int64{-1, 0, 1, 60}[rng.Intn(4)], CI: ci, LA: ci, RS: uint64(rng.Intn(3))}
+				LC: now, LE: now + []int64{-1, 0, 1, 60}[rng.Intn(4)], CI: ci, LA: la, RS: uint64(rng.Intn(3))}
+			if la < ci {
+				rep.Hit("state:applied<commit")
+			}
 			for _, m := range cfg.Members {
 				if m[0] == 1 {
 					continue
